@@ -3,12 +3,12 @@
 # Re-runs, for each seeded change, the quick tier of the checks its meta.json
 # names under caught_by_quick_checks, against a scratch worktree (tools/try_mutant.sh),
 # and prints one line per (change, check): CAUGHT / MISSED / HARNESS / NOAPPLY.
-cd /verif
+cd "$(dirname "$(readlink -f "$0")")/.."
 ids="$@"; [ -z "$ids" ] && ids=$(ls seeded)
 for id in $ids; do
   props=$(/venv/bin/python -c "import json;print(' '.join(json.load(open('seeded/$id/meta.json')).get('caught_by_quick_checks',[])))")
   for p in $props; do
-    out=$(tools/try_mutant.sh /verif/seeded/$id/patch.diff $p 2>&1)
+    out=$(tools/try_mutant.sh $PWD/seeded/$id/patch.diff $p 2>&1)
     if echo "$out" | grep -q "PATCH DOES NOT APPLY"; then st=NOAPPLY
     elif echo "$out" | grep -q "rc=1: VIOLATION"; then st=CAUGHT
     elif echo "$out" | grep -q "rc=2"; then st=HARNESS
